@@ -1038,32 +1038,36 @@ Proof.
   intros b e. rewrite oget_odel. destruct (caddr_eqb a b); [discriminate|auto].
 Qed.
 
-Lemma cache_remove_rel f a : rm_rel f (cache_remove f a).
+Lemma rm_rel_reseal p50 f d : rm_rel f (reseal p50 f d).
+Proof. unfold reseal. destruct (p50 && digest_dir_used f d); [apply rm_rel_dirw|apply rm_rel_refl]. Qed.
+Lemma cache_remove_rel p50 f a : rm_rel f (cache_remove p50 f a).
 Proof.
   unfold cache_remove. destruct (obj_exists f a); [|apply rm_rel_prune].
   eapply rm_rel_trans; [apply (rm_rel_dirw f (a_digest a) true)|].
   set (f1 := dput f (a_digest a) true).
   eapply rm_rel_trans; [|apply rm_rel_prune].
+  eapply rm_rel_trans; [|apply rm_rel_reseal].
   eapply rm_rel_trans; [|apply rm_rel_odel].
   destruct (oget f1 a); [apply rm_rel_chmod|apply rm_rel_refl].
 Qed.
 (* only the address itself can disappear *)
-Lemma cache_remove_other f a b : b <> a -> oget (cache_remove f a) b = oget f b.
+Lemma cache_remove_other p50 f a b : b <> a -> oget (cache_remove p50 f a) b = oget f b.
 Proof.
   intros NE. unfold cache_remove, prune.
   assert (P : forall g d, oget (if digest_dir_used g d then g else ddel g d) b = oget g b) by (intros g d; destruct (digest_dir_used g d); reflexivity).
-  destruct (obj_exists f a); rewrite P; auto.
+  assert (Q : forall g d, oget (reseal p50 g d) b = oget g b) by (intros g d; unfold reseal; destruct (p50 && digest_dir_used g d); reflexivity).
+  destruct (obj_exists f a); rewrite P; auto. rewrite Q.
   rewrite oget_odel. destruct (caddr_eqb_spec a b); [congruence|].
   destruct (oget (dput f (a_digest a) true) a) as [e|]; auto.
   unfold chmod_w_through. destruct (resolve _ link_fuel e); auto. destruct (iget _ n0); auto.
 Qed.
 
-Lemma cache_removes_rel l : forall f, rm_rel f (fold_left cache_remove l f).
+Lemma cache_removes_rel p50 l : forall f, rm_rel f (fold_left (cache_remove p50) l f).
 Proof.
   induction l as [|a t IH]; intros f; cbn [fold_left]; [apply rm_rel_refl|].
   eapply rm_rel_trans; [apply cache_remove_rel|apply IH].
 Qed.
-Lemma cache_removes_other l b : ~ In b l -> forall f, oget (fold_left cache_remove l f) b = oget f b.
+Lemma cache_removes_other p50 l b : ~ In b l -> forall f, oget (fold_left (cache_remove p50) l f) b = oget f b.
 Proof.
   induction l as [|a t IH]; intros NI f; cbn [fold_left]; auto. cbn [In] in NI.
   rewrite IH by tauto. apply cache_remove_other. intros ->; tauto.
@@ -1084,9 +1088,9 @@ Qed.
 Definition obj_present (f : fsys) (a : caddr) : Prop := oget f a <> None.
 
 (* what remove and untrack do to the cache: [del] is what they delete *)
-Lemma removal_respects all tg del f :
+Lemma removal_respects p50 all tg del f :
   (forall a, In a del -> deletable all tg a = true) ->
-  let f' := fold_left cache_remove del f in
+  let f' := fold_left (cache_remove p50) del f in
   rm_rel f f' /\
   (forall a, obj_present f a -> ~ obj_present f' a ->
      forall e x, In (e, x) all -> refers x a = true -> is_target tg e = true) /\
@@ -1107,8 +1111,8 @@ Proof.
     eapply rm_rel_holds; [apply cache_removes_rel| |exact H]. apply cache_removes_other; auto.
 Qed.
 
-Lemma remove_like_spec (force : bool) all tg l f :
-  let f' := fold_left cache_remove (filter (fun a => force || deletable all tg a) l) f in
+Lemma remove_like_spec p50 (force : bool) all tg l f :
+  let f' := fold_left (cache_remove p50) (filter (fun a => force || deletable all tg a) l) f in
   rm_rel f f' /\
   (force = false ->
    (forall a, obj_present f a -> ~ obj_present f' a ->
@@ -1117,12 +1121,12 @@ Lemma remove_like_spec (force : bool) all tg l f :
       holds f (cache_addr (r_path x) d) c -> holds f' (cache_addr (r_path x) d) c)).
 Proof.
   intros f'. split; [apply cache_removes_rel|]. intros ->.
-  destruct (removal_respects all tg (filter (fun a => false || deletable all tg a) l) f) as (_ & A & B); auto.
+  destruct (removal_respects p50 all tg (filter (fun a => false || deletable all tg a) l) f) as (_ & A & B); auto.
   intros a I. apply filter_In in I. tauto.
 Qed.
 
-Theorem remove_cmd_spec o targets r r' oc :
-  remove_cmd o targets r = (r', oc) ->
+Theorem remove_cmd_spec fl o targets r r' oc :
+  remove_cmd fl o targets r = (r', oc) ->
   recs (base r') = recs (base r) /\ dirs r' = dirs r /\ rm_rel (xfs r) (xfs r') /\
   (rm_force o = false ->
    (forall a, obj_present (xfs r) a -> ~ obj_present (xfs r') a ->
@@ -1133,7 +1137,7 @@ Proof.
   unfold remove_cmd. cbv zeta.
   match goal with |- (match ?cands with Some _ => _ | None => _ end) = _ -> _ => destruct cands as [l|] end.
   - intros E; injection E as <- <-. change (xfs (set_xfs r ?f)) with f.
-    destruct (remove_like_spec (rm_force o) (recs (base r)) (select r targets) l (xfs r)) as (A & B).
+    destruct (remove_like_spec (fixed_P50 fl) (rm_force o) (recs (base r)) (select r targets) l (xfs r)) as (A & B).
     split; [reflexivity|]. split; [reflexivity|]. split; [exact A|exact B].
   - intros E; injection E as <- <-. split; [reflexivity|]. split; [reflexivity|]. split; [apply rm_rel_refl|]. intros _. split.
     + intros a P NP; contradiction.
@@ -1341,11 +1345,11 @@ Proof.
   destruct oc1.
   2,3: (intros E; apply (TRIV f1 Panic); [exact FR|discriminate|exact E]).
   intros E; injection E as <- <-.
-  match goal with |- context [fold_left cache_remove ?dl _] => set (del := dl) end.
+  match goal with |- context [fold_left (cache_remove _) ?dl _] => set (del := dl) end.
   match goal with |- context [set_xfs ?rr _] => set (r1 := rr) end.
   change (xfs (set_xfs r1 ?f)) with f. change (recs (base (set_xfs r1 ?f))) with (filter (fun ex : N * frec => negb (is_target tg (fst ex))) all).
   change (xfs r1) with f1.
-  destruct (removal_respects all tg del f1) as (RM & RESP & KEEP).
+  destruct (removal_respects (fixed_P50 fl) all tg del f1) as (RM & RESP & KEEP).
   { intros a I. unfold del in I. apply filter_In in I. tauto. }
   rsplit.
   - intros a P NP. apply RESP; auto. unfold obj_present in *. rewrite (frame_oget _ _ _ FR). exact P.
@@ -1434,9 +1438,9 @@ Proof.
 Qed.
 
 From Coq Require Import PeanoNat.
-Lemma remove_ambiguous any ds f targets r :
+Lemma remove_ambiguous fl any ds f targets r :
   (1 < length (flat_map (fun ex => filter (version_matches any ds) (addrs_of (snd ex))) (select r targets)))%nat ->
-  remove_cmd {| rm_versions := VOnly any ds; rm_force := f |} targets r = (r, Err).
+  remove_cmd fl {| rm_versions := VOnly any ds; rm_force := f |} targets r = (r, Err).
 Proof.
   intros H. unfold remove_cmd. cbn [rm_versions]. apply Nat.ltb_lt in H. rewrite H. reflexivity.
 Qed.
